@@ -19,7 +19,6 @@ import (
 	"verifharness/internal/fw"
 	"verifharness/internal/gen"
 	"verifharness/internal/prng"
-	"verifharness/internal/snap"
 )
 
 /* scalar construction
@@ -100,24 +99,12 @@ type verdict struct {
 	index  int
 }
 
-func kindOfDiff(d string) string {
-	switch snap.Kind(d) {
-	case "value":
-		return "value"
-	case "deriv", "hess":
-		return "deriv"
+// tmpl names the template an element type is instantiated from.
+func tmpl(T gen.ElemType) string {
+	if T.IsReal {
+		return "real"
 	}
-	return "other"
-}
-
-func orderRel(recv, other int) string {
-	switch {
-	case recv < other:
-		return "recv-lower-order"
-	case recv > other:
-		return "recv-higher-order"
-	}
-	return "same-order"
+	return "plain"
 }
 
 func maxInt(a, b int) int {
